@@ -153,7 +153,10 @@ class HDRule(TermRule):
                         s2 = s.copy()
                         self.ev(s2, "call", "self.__delitem__", k)
                         nxt.append(s2)
-                        outs.append(Out("raise", s.copy(), exc("builtins.KeyError")))
+                        if s.ts.get(self.has_key(T("lower", k))) is True:
+                            s2.ts[self.has_key(T("lower", k))] = False  # `if h in self: del self[h]`: present, so no KeyError
+                        else:
+                            outs.append(Out("raise", s.copy(), exc("builtins.KeyError")))
                         continue
                     s2 = s.copy()
                     self.ev(s2, "del-other", term_of(base), k)
@@ -332,12 +335,19 @@ class HDRule(TermRule):
                     self.ev(s, "call", f"{rname}.{f.attr}", *args)
                 outs = [Out("normal", s, tv(T(f"{rname}.{f.attr}", *args), none=False if f.attr not in ("get",) else None))]
                 if f.attr in ("__delitem__", "__getitem__", "pop"):
-                    outs.append(Out("raise", st.copy(), exc("builtins.KeyError")))
+                    x_ = args[0] if args else None
+                    known_present = recv.kind == "self" and x_ is not None and st.ts.get(self.has_key(T("lower", x_))) is True
+                    if not known_present:  # (`if h in self: del self[h]` cannot raise)
+                        outs.append(Out("raise", st.copy(), exc("builtins.KeyError")))
                 return outs
         if isinstance(f, ast.Attribute) and isinstance(f.value, ast.Call) and ast.unparse(f.value.func) == "super":
             s = st.copy()
             self.ev(s, "call", f"super.{f.attr}", *args)
             return [Out("normal", s, tv(T(f"super.{f.attr}", *args)))]
+        if text in ("list", "tuple") and len(pos) == 1 and not kw and it.var(text) not in st.env:
+            # the call list(x) is [*x] - a fresh list of x's elements - while the display [x] is a one-element list: the term
+            # language writes displays as list(a, b, ..), so the call is spelt with a star to keep the two apart
+            return [Out("normal", st, tv(T(text, T("star", args[0])), none=False))]
         if text == "type" and len(pos) == 1:
             return [Out("normal", st, tv(T("type", args[0]), none=False, truth=True))]
         if recv is None and isinstance(f, ast.Call):
@@ -797,7 +807,8 @@ def run(ctx):
     check_rows(R8, fi, rows, lambda r: (r.out.startswith("return"), r.out == "return:" + T("self._headers.iteritems"), "the item view must iterate the per-line items"), "item view iteration")
     fi, rows, _ = rows_of(ctx, IV, "__len__", sf)
     LENS = {"return:" + T("len", T("list", T("self._headers.iteritems"))), "return:" + T("sum", T("gen", "1", T("self._headers.iteritems"))),
-            "return:" + T("len", T("tuple", T("self._headers.iteritems")))}
+            "return:" + T("len", T("tuple", T("self._headers.iteritems"))),
+            "return:" + T("len", T("list", T("star", T("self._headers.iteritems")))), "return:" + T("len", T("tuple", T("star", T("self._headers.iteritems"))))}
     Ih = T("values", "S:self._headers")
     Eh = T("each", Ih)
     for cnt in (T("len", Ih), T("len", "S:self._headers"), T("len", "self._headers"), T("self._headers.__len__")):
@@ -942,8 +953,17 @@ def run(ctx):
     fi, rows, _ = rows_of(ctx, HD, "_prepare_for_method_change", sf)
 
     def p_pmc(r):
+        if r.out.startswith("raise"):
+            return True, False, "removing the content headers must not fail when one of them is absent"
         if not r.out.startswith("return") or not r.ev:
             return False, True, ""
-        ok = r.out == "return:self" and len(r.ev) == 1 and r.ev[0][0] == "call" and r.ev[0][1] == "self.discard" and r.ev[0][2].startswith(("each(list(", "each(tuple(", "each(("))
+        TABLE = ("each(list(", "each(tuple(", "each((")
+
+        def removal(e):
+            """one content header taken out of this dict: discard(h), `del self[h]` (the path knows h is present), pop(h, default)"""
+            if e[0] == "call" and e[1] in ("self.discard", "self.__delitem__", "self.pop") and isinstance(e[2], str) and e[2].startswith(TABLE):
+                return True
+            return e[0] == "del" and isinstance(e[1], str) and e[1].startswith("lower(") and e[1][6:].startswith(TABLE)
+        ok = r.out == "return:self" and all(removal(e) for e in r.ev)
         return True, ok, "the content headers must be discarded one by one from this dict, which is returned"
     check_rows(R9, fi, rows, p_pmc, "_prepare_for_method_change")
